@@ -151,6 +151,12 @@ def _inventory(p):
         return {"globals": [], "counts": {}}
 
 
+def _because(bad_globals):
+    """One line per inventory entry the translator's rules do not accept (a reviewed `unclassified` entry is still benign)."""
+    return ["%s.%s (%s, %s): %s - %s" % (g["package"], g["name"], g.get("pos", ""), g["kind"], g["classification"], g["evidence"])
+            for g in bad_globals if not (g["classification"] == "unclassified" and g["package"] == "internal/parsertest")]
+
+
 def _race_reports(err):
     """Split the race detector's stderr into reports."""
     reps = []
@@ -310,6 +316,7 @@ def main(run):
             "digest_differences": diffs,
             "non_benign_globals": bad_globals,
             "broken_obligation": run.broken,
+            "obligation_broken_because": _because(bad_globals) if not proof_ok else [],
             "replay_cmd": "bin/check C20 --replay <this file>   (re-runs the case under -race; schedule-dependent, repeated up to 5 times)",
             "meaning": "goroutines that only work on instances they created themselves raced on state shared inside the library "
                        "(or produced results that differ from the sequential run)",
@@ -318,6 +325,7 @@ def main(run):
     if not proof_ok and not found:
         b = dict(run.broken or {"kind": "proof-obligation"})
         b["non_benign_globals"] = bad_globals
+        b["obligation_broken_because"] = _because(bad_globals)
         b["note"] = ("the premise C20_no_unsync_shared_state (or a proof it depends on) no longer checks against the regenerated "
                      "inventory; the race search of this tier found no failing schedule")
         run.violation(b, no_input=True, tag="proof")
